@@ -80,6 +80,9 @@ func successDominates(fn *ssa.Function, b *ssa.BasicBlock, isX func(c *ssa.Call)
 		if nn, known := flow.ErrNonNil(conds, ev); known && !nn {
 			return true
 		}
+		if nn, known := flow.ErrKnown(ev, b); known && !nn {
+			return true
+		}
 	}
 	return false
 }
